@@ -113,8 +113,41 @@ def gen_contraction_table():
     return rows
 
 
+def code_facts():
+    """small constants of the running code that the model relies on"""
+    import dataclasses
+    from adcgen.indices import Indices
+    from adcgen.generate_code.contraction import ScalingComponent, Scaling
+    base = {k: [ord(c) for c in v] for k, v in Indices.base.items()}
+    return {"base": base, "spins": list(Indices.spins),
+            "scal_fields": [f.name for f in dataclasses.fields(ScalingComponent)],
+            "scaling_fields": [f.name for f in dataclasses.fields(Scaling)],
+            "scal_order": bool(ScalingComponent.__dataclass_params__.order), "scaling_order": bool(Scaling.__dataclass_params__.order)}
+
+
+def gen_code_facts():
+    f = code_facts()
+    spn = {"occ": ".occ", "virt": ".virt", "general": ".gen"}
+    base = ", ".join(f"({spn.get(k, '.gen')}, [{', '.join(map(str, v))}])" for k, v in f["base"].items() if k in spn)
+    extra = [k for k in f["base"] if k not in spn]
+    def strs(l):
+        return "[" + ", ".join('"' + s + '"' for s in l) + "]"
+    text = ("import Adc.Syntax\n/- GENERATED from /repo (adcgen.indices.Indices, adcgen.generate_code.contraction) by harness/tables.py — do not edit -/\n"
+            "namespace Adc\n/-- Indices.base: the letters of every index space, in the order of the dict -/\n"
+            f"def codeBaseLetters : List (Space × List Nat) := [{base}]\n"
+            f"def codeBaseExtraSpaces : List String := {strs(extra)}\n"
+            f"def codeSpins : List String := {strs(f['spins'])}\n"
+            "/-- dataclass fields of ScalingComponent / Scaling in declaration order (the order of comparison) -/\n"
+            f"def codeScalFields : List String := {strs(f['scal_fields'])}\n"
+            f"def codeScalingFields : List String := {strs(f['scaling_fields'])}\n"
+            f"def codeScalOrdered : Bool := {'true' if f['scal_order'] and f['scaling_order'] else 'false'}\n"
+            "end Adc\n")
+    write_if_changed(os.path.join(GEN, "CodeFacts.lean"), text)
+    return f
+
+
 def gen_all():
-    return {"preferred": gen_preferred_table(), "contraction": gen_contraction_table()}
+    return {"preferred": gen_preferred_table(), "contraction": gen_contraction_table(), "facts": gen_code_facts()}
 
 
 if __name__ == "__main__":
